@@ -26,7 +26,7 @@ def tok(k, v, n=0, d=1, s=()):
     return {"k": k, "v": v, "n": n, "d": d, "s": list(s)}
 
 
-def lex_line(line):
+def lex_line(line, orig=False):
     toks = []
     pos = 0
     line = line.rstrip("\r\n")
@@ -44,7 +44,10 @@ def lex_line(line):
             if up == "REM":
                 toks.append(tok("cmt", line[m.start(k):]))
                 break
-            toks.append(tok("id", up, s=up.encode("latin-1")))
+            t = tok("id", up, s=up.encode("latin-1"))
+            if orig:
+                t["o"] = list(v.encode("latin-1"))
+            toks.append(t)
         elif k == "int":
             n = int(v)
             toks.append(tok("int", v, n) if n <= LIM * 4 else tok("big", v))
@@ -67,12 +70,16 @@ def lex_line(line):
             break
         else:
             toks.append(tok(k, v))
+    if orig:
+        for t in toks:
+            t.setdefault("o", [])
     return toks
 
 
-def lex_text(text):
-    """All lines (blank lines kept as empty token lists so that line numbers stay meaningful)."""
-    return [lex_line(l) for l in re.split(r"\r\n|\r|\n", text)]
+def lex_text(text, orig=False):
+    """All lines (blank lines kept as empty token lists so that line numbers stay meaningful).
+    orig=True adds the original spelling of identifiers (field o) to every token."""
+    return [lex_line(l, orig) for l in re.split(r"\r\n|\r|\n", text)]
 
 
 def lex_nonblank(text):
